@@ -94,6 +94,47 @@ fn gen_enum_block(i: u64, src: &mut String) {
     src.push_str(&format!("enum E{i}:\n    Red\n    Green\n    Blue\n\n"));
 }
 
+/// Blocks aimed at the emitter's metadata maps: string consts referring to each other, newtypes (with and without a
+/// validation hook), enums whose variants carry fields, models with defaults, a class with several methods.
+fn gen_emitter_block(r: &mut Rng, i: u64, src: &mut String, uses: &mut Vec<String>) {
+    match r.below(5) {
+        0 => {
+            let n = r.range(2, 5);
+            src.push_str(&format!("const BASE{i}: str = \"base{i}\"\n"));
+            for j in 0..n {
+                let prev = if j == 0 { format!("BASE{i}") } else { format!("PART{i}_{}", j - 1) };
+                src.push_str(&format!("const PART{i}_{j}: str = {prev} + \"-{j}\"\n"));
+            }
+            src.push_str(&format!("const NUM{i}: int = {}\n\n", r.below(100)));
+            uses.push(format!("    s{i} = PART{i}_{}\n", n - 1));
+        }
+        1 => {
+            let n = r.range(2, 4);
+            for j in 0..n {
+                if r.chance(1, 2) {
+                    src.push_str(&format!("type Nt{i}x{j} = newtype int\n\n"));
+                } else {
+                    src.push_str(&format!("type Nt{i}x{j} = newtype int:\n    def from_underlying(n: int) -> Result[Nt{i}x{j}, str]:\n        if n < 0:\n            return Err(\"negative\")\n        return Ok(Nt{i}x{j}(n))\n\n"));
+                }
+                uses.push(format!("    nt{i}x{j} = Nt{i}x{j}({j})\n"));
+            }
+        }
+        2 => {
+            src.push_str(&format!("enum Shape{i}:\n    Circle(int)\n    Rect(int, int)\n    Tri(int, int, int)\n    Empty\n\n"));
+            src.push_str(&format!("def area{i}(s: Shape{i}) -> int:\n    match s:\n        Shape{i}.Circle(r) => return r\n        Shape{i}.Rect(w, h) => return w * h\n        Shape{i}.Tri(a, b, c) => return a + b + c\n        Shape{i}.Empty => return 0\n\n"));
+            uses.push(format!("    a{i} = area{i}(Shape{i}.Rect(2, 3))\n"));
+        }
+        3 => {
+            src.push_str(&format!("@derive(Debug, Clone, Default)\nmodel Cfg{i}:\n    host: str = \"localhost\"\n    port: int = 80\n    debug: bool = false\n    ratio: float = 0.5\n\n"));
+            uses.push(format!("    c{i} = Cfg{i}(port=8080)\n"));
+        }
+        _ => {
+            src.push_str(&format!("class Counter{i}:\n    n: int\n    step: int = 1\n\n    def get(self) -> int:\n        return self.n\n\n    def bump(mut self) -> None:\n        self.n = self.n + self.step\n\n    def twice(self) -> int:\n        return self.n * 2\n\n"));
+            uses.push(format!("    mut k{i} = Counter{i}(n=1)\n    k{i}.bump()\n"));
+        }
+    }
+}
+
 pub fn gen_program(seed: u64) -> Program {
     let mut r = Rng::new(seed);
     let mut files: Vec<(String, String)> = Vec::new();
@@ -165,6 +206,10 @@ pub fn gen_program(seed: u64) -> Program {
             }
             _ => gen_enum_block(i, &mut main),
         }
+    }
+    for i in 0..r.below(4) {
+        gen_emitter_block(&mut r, 10 + i, &mut main, &mut uses);
+        targets.push("emitter metadata maps".to_string());
     }
     if r.chance(1, 4) {
         main.push_str("async def fetch(n: int) -> int:\n    return n\n\n");
@@ -396,6 +441,13 @@ pub fn observe_subproc(p: &Program, w: &World, scratch: &Path, fakebin: &Path) -
         }
         o.insert(format!("out:{rel}"), String::from_utf8_lossy(&bytes).to_string());
     }
+    // the per-test harness projects `incan test` generates (target/incan_tests/<fn>/{Cargo.toml,src/main.rs})
+    for (rel, bytes) in world::read_tree(&root.join("target/incan_tests")) {
+        if rel.contains("/target/") {
+            continue;
+        }
+        o.insert(format!("harness:{rel}"), String::from_utf8_lossy(&bytes).to_string());
+    }
     let _ = std::fs::remove_dir_all(&root);
     o
 }
@@ -472,6 +524,9 @@ fn key_class(k: &str) -> String {
             return "generated Cargo.toml".into();
         }
         return "generated Rust source".into();
+    }
+    if k.starts_with("harness:") {
+        return "generated test harness".into();
     }
     if k.starts_with("fmt:") || k.starts_with("diff:") {
         return "formatter output".into();
